@@ -45,6 +45,18 @@ impl Check for C10 {
         let mut g = Gen::new(seed, "c10");
         let mut net = calm_net(&mut g);
         net["pipe"]["lat"] = json!([0, 300]);
+        if g.chance(14) {
+            // the proxy server itself is unreachable, is not an AnyTLS server, rejects the password, dies right after
+            // the handshake, or crashes and comes back: every request completes promptly with an error, the local
+            // application gets exactly one failure reply, nothing is dialled, and service resumes with the server
+            let kind = *g.pick(&["refuse", "refuse", "close", "junk", "wrong_password", "tls_then_close", "restart", "restart"]);
+            let nr = g.range(1, 4);
+            let reqs: Vec<Value> = (0..nr).map(|_| json!({"via": *g.pick(&["direct", "socks5", "socks5", "http"]), "start_ms": *g.pick(&[0u64, 0, 1, 50, 2_000])})).collect();
+            let na = g.range(1, 3);
+            let after: Vec<Value> = (0..na).map(|_| json!({"via": *g.pick(&["direct", "socks5", "http"]), "start_ms": *g.pick(&[0u64, 0, 1, 300])})).collect();
+            let warm: Vec<Value> = (0..g.range(1, 3)).map(|_| json!({"via": *g.pick(&["direct", "socks5", "http"]), "start_ms": *g.pick(&[0u64, 0, 100])})).collect();
+            return json!({"net": net, "mode": "down", "kind": kind, "delay_ms": if g.chance(30) { g.range(1, 4_000) } else { 0 }, "reqs": reqs, "after": after, "warm": warm, "recover": kind != "wrong_password" && g.chance(70)});
+        }
         if g.chance(55) {
             let nh = g.range(1, 4);
             let hosts: Vec<Value> = (0..nh)
@@ -95,6 +107,8 @@ impl Check for C10 {
             reset_process_state().await;
             if plan["mode"] == "real" {
                 run_real(plan).await
+            } else if plan["mode"] == "down" {
+                run_down(plan).await
             } else {
                 run_script(plan).await
             }
@@ -102,7 +116,7 @@ impl Check for C10 {
     }
     fn shrink(&self, plan: &Value) -> Vec<Value> {
         let mut out = Vec::new();
-        for k in ["/reqs", "/opens"] {
+        for k in ["/reqs", "/opens", "/after", "/warm"] {
             out.extend(shrink_array(plan, k, 1));
         }
         for k in ["reqs", "opens"] {
@@ -126,7 +140,7 @@ impl Check for C10 {
         out
     }
     fn rule(&self) -> &'static str {
-        "one case = (real mode) 1-6 possibly concurrent requests through create_proxy_stream / SOCKS5 / HTTP CONNECT to 1-4 hosts whose targets accept (after 0-14 s or after more than 15 s), refuse (at once or late) or black-hole and whose names resolve, resolve slowly, fail, are unknown, hang, or are too long to be encoded (the request fails locally after its stream was opened and must leave the pooled session usable); or (script mode) 1-6 racing opens against a scripted TLS server answering each open with an empty SYNACK at 0..29 s / around 30 s +-300 ms / after 30 s, an error text, twice, for an unknown id first, never, by killing the session at a seeded instant (connection cut, fatal alert), or by breaking the connection for the client's writes only (the next write on that session fails: the SYN of a later open that reuses it); oracle on virtual time, the simulated network's connect log and every byte the local application receives; every case is non-trivial; distinct = distinct (plan hash, poll-order fingerprint)"
+        "one case = (down mode, 1 case in 7) the proxy server itself refuses connections (at once or after up to 4 s), closes them, answers with something that is not TLS, rejects the password, dies right after the TLS handshake, or crashes (listener gone, every connection cut) after serving 1-3 requests: 1-4 requests through create_proxy_stream / SOCKS5 / HTTP CONNECT must each complete promptly with an error and exactly one failure reply, dial nothing, and once the server is (re)started 1-3 further requests must succeed; or (real mode) 1-6 possibly concurrent requests through create_proxy_stream / SOCKS5 / HTTP CONNECT to 1-4 hosts whose targets accept (after 0-14 s or after more than 15 s), refuse (at once or late) or black-hole and whose names resolve, resolve slowly, fail, are unknown, hang, or are too long to be encoded (the request fails locally after its stream was opened and must leave the pooled session usable); or (script mode) 1-6 racing opens against a scripted TLS server answering each open with an empty SYNACK at 0..29 s / around 30 s +-300 ms / after 30 s, an error text, twice, for an unknown id first, never, by killing the session at a seeded instant (connection cut, fatal alert), or by breaking the connection for the client's writes only (the next write on that session fails: the SYN of a later open that reuses it); oracle on virtual time, the simulated network's connect log and every byte the local application receives; every case is non-trivial; distinct = distinct (plan hash, poll-order fingerprint)"
     }
     fn real_components(&self) -> Vec<&'static str> {
         vec!["Client::create_proxy_stream (30 s SYNACK wait), session pool", "SOCKS5 and HTTP front-ends (reply / status)", "Session (client)", "real mode: Server::listen, TcpProxyHandler (15 s connect timeout, SYNACK with reason), resolve_host_with_cache (10 s)", "rustls both ways"]
@@ -378,6 +392,155 @@ async fn run_real(plan: &Value) -> Outcome {
     }
     out.nontrivial = true;
     out.summary = json!({"mode": "real", "requests": reqs.len(), "results": results.iter().map(|r| json!({"ok": r.ok, "ms": r.done_us.map(|d| (d - r.start_us) / 1000), "text": r.text.chars().take(60).collect::<String>()})).collect::<Vec<_>>()});
+    out
+}
+
+
+/// The proxy server itself is down / hostile / restarted.
+async fn run_down(plan: &Value) -> Outcome {
+    let mut out = Outcome::ok();
+    let kind = plan["kind"].as_str().unwrap_or("refuse").to_string();
+    let delay_us = plan["delay_ms"].as_u64().unwrap_or(0) * 1000;
+    let padding = crate::tiera::factory(DEFAULT_SCHEME);
+    let internet = start_internet(|_| Tgt::Sink);
+    let _ = &internet;
+    let recover = plan["recover"].as_bool().unwrap_or(false);
+    const T_DOWN_MS: u64 = 10_000;
+    const T_UP_MS: u64 = 60_000;
+    let mut server_task: Option<tokio::task::JoinHandle<()>> = None;
+    let mut bad_task: Option<tokio::task::JoinHandle<()>> = None;
+    match kind.as_str() {
+        "refuse" => set_policy(server_addr(), ConnectPolicy::Refuse { delay_us }),
+        "wrong_password" => start_server(padding.clone()),
+        "restart" => {
+            let server = Arc::new(anytls_rs::server::Server::new(PASSWORD, crate::fixtures::acceptor("a"), padding.clone(), None));
+            server_task = Some(anytls_simnet::spawn(async move {
+                let _ = server.listen(SERVER_ADDR).await;
+            }));
+        }
+        k => {
+            let k = k.to_string();
+            bad_task = Some(anytls_simnet::spawn(async move {
+                let Ok(listener) = TcpListener::bind(SERVER_ADDR).await else { return };
+                let acceptor = crate::fixtures::acceptor("a");
+                loop {
+                    let Some(inc) = listener.accept_incoming().await else { return };
+                    let mut tcp = inc.stream;
+                    let (k, acceptor) = (k.clone(), acceptor.clone());
+                    anytls_simnet::spawn(async move {
+                        match k.as_str() {
+                            "close" => drop(tcp),
+                            "junk" => {
+                                let _ = tcp.write_all(b"HTTP/1.1 400 Bad Request\r\nServer: not-anytls\r\nConnection: close\r\n\r\n").await;
+                                sleep(Duration::from_millis(200)).await;
+                                drop(tcp);
+                            }
+                            _ => {
+                                // a complete TLS handshake, then the peer goes away
+                                if let Ok(tls) = acceptor.accept(tcp).await {
+                                    sleep(Duration::from_millis(5)).await;
+                                    drop(tls);
+                                }
+                            }
+                        }
+                    });
+                }
+            }));
+        }
+    }
+    let client = make_client(padding.clone(), quiet_pool(), if kind == "wrong_password" { "not-the-password" } else { PASSWORD });
+    start_socks5(client.clone());
+    start_http(client.clone());
+    sleep(Duration::from_millis(1)).await;
+    let launch = |specs: &Vec<Value>, base_ms: u64, tag: u8| -> Arc<Mutex<Vec<ReqRes>>> {
+        let res: Arc<Mutex<Vec<ReqRes>>> = Arc::new(Mutex::new(vec![ReqRes::default(); specs.len()]));
+        for (i, r) in specs.iter().enumerate() {
+            let (c, res2, r2) = (client.clone(), res.clone(), r.clone());
+            anytls_simnet::spawn(async move {
+                let at = base_ms + r2["start_ms"].as_u64().unwrap_or(0);
+                let now = now_us() / 1000;
+                if at > now {
+                    sleep(Duration::from_millis(at - now)).await;
+                }
+                do_request(c, r2["via"].as_str().unwrap_or("direct"), &format!("203.0.113.{}", 100 + tag as usize * 10 + i), 4000 + i as u16, false, res2, i).await;
+            });
+        }
+        res
+    };
+    let empty = Vec::new();
+    let warm_specs = if kind == "restart" { plan["warm"].as_array().unwrap_or(&empty).clone() } else { Vec::new() };
+    let warm = launch(&warm_specs, 0, 0);
+    if kind == "restart" {
+        // the crash: the listener goes away and every established connection is cut
+        sleep(Duration::from_millis(5_000)).await;
+        if let Some(t) = server_task.take() {
+            t.abort();
+            let _ = t.await;
+        }
+        set_policy(server_addr(), ConnectPolicy::Refuse { delay_us });
+        for c in world::with(|w| w.net.conns_to(server_addr())).unwrap_or_default() {
+            c.back.set_read_fault(c.back.total_read(), anytls_simnet::pipe::ReadFault::Reset);
+            c.fwd.set_read_fault(c.fwd.total_read(), anytls_simnet::pipe::ReadFault::Reset);
+        }
+        world::fault_fired("crash.proxy_server_process");
+    }
+    let down_specs = plan["reqs"].as_array().unwrap_or(&empty).clone();
+    let down = launch(&down_specs, T_DOWN_MS, 1);
+    let now = now_us() / 1000;
+    sleep(Duration::from_millis(T_UP_MS - now)).await;
+    let dials_before_up = world::with(|w| w.net.connect_log.clone()).unwrap_or_default();
+    let after_specs = if recover { plan["after"].as_array().unwrap_or(&empty).clone() } else { Vec::new() };
+    if recover {
+        if let Some(t) = bad_task.take() {
+            t.abort();
+            let _ = t.await;
+        }
+        set_policy(server_addr(), ConnectPolicy::Accept { delay_us: 0 });
+        start_server(padding.clone());
+        world::fault_fired("restart.proxy_server_process");
+        sleep(Duration::from_millis(500)).await;
+    }
+    let after = launch(&after_specs, T_UP_MS + 1_000, 2);
+    sleep(Duration::from_secs(60)).await;
+    // judge
+    let fe = |a: &SocketAddr| *a == server_addr() || *a == SOCKS_ADDR.parse::<SocketAddr>().unwrap() || *a == HTTP_ADDR.parse::<SocketAddr>().unwrap();
+    for (i, (spec, rr)) in warm_specs.iter().zip(warm.lock().unwrap().iter()).enumerate() {
+        if !rr.ok {
+            out.viol("failure-unexpected", format!("failure-unexpected:{}:before-the-crash", spec["via"].as_str().unwrap_or("")), format!("warm-up request #{} failed although the server was up: {:?}", i, rr.text));
+        }
+    }
+    for (i, (spec, rr)) in down_specs.iter().zip(down.lock().unwrap().iter()).enumerate() {
+        let via = spec["via"].as_str().unwrap_or("direct");
+        let Some(done) = rr.done_us else {
+            out.viol("no-completion", format!("no-completion:{}:server-{}", via, kind), format!("request #{} ({}) never completed while the proxy server was {} (50 s)", i, via, kind));
+            continue;
+        };
+        let took = done.saturating_sub(rr.start_us);
+        if rr.ok {
+            out.viol("ok-without-connect", format!("ok-unexpected:{}:server-{}", via, kind), format!("request #{} ({}) reported success while the proxy server was {}", i, via, kind));
+        } else if took > 5_000_000 + delay_us {
+            out.viol("late-completion", format!("late-completion:{}:server-{}", via, kind), format!("request #{} ({}) took {} ms to fail while the proxy server was {}", i, via, took / 1000, kind));
+        }
+        check_frontend_reply(&mut out, via, rr, i);
+        if via == "socks5" && rr.reply.len() == 10 && rr.reply[1] == 0 {
+            out.viol("ok-without-connect", format!("success-reply:{}:server-{}", via, kind), format!("request #{}: SOCKS5 reply says succeeded while the proxy server was {}", i, kind));
+        }
+        if via == "http" && !String::from_utf8_lossy(&rr.reply).starts_with("HTTP/1.1 5") {
+            out.viol("reply-count", format!("http-no-5xx:server-{}", kind), format!("request #{}: HTTP CONNECT got {:?} while the proxy server was {}", i, String::from_utf8_lossy(&rr.reply).chars().take(40).collect::<String>(), kind));
+        }
+    }
+    let stray: Vec<SocketAddr> = dials_before_up.iter().filter(|c| c.t_us >= T_DOWN_MS * 1000 && !fe(&c.dialed)).map(|c| c.dialed).collect();
+    if !stray.is_empty() {
+        out.viol("ok-without-connect", format!("dial-while-server-down:{}", kind), format!("targets were dialled while the proxy server was {}: {:?}", kind, stray));
+    }
+    for (i, (spec, rr)) in after_specs.iter().zip(after.lock().unwrap().iter()).enumerate() {
+        let via = spec["via"].as_str().unwrap_or("direct");
+        if !rr.ok {
+            out.viol("failure-unexpected", format!("failure-unexpected:{}:after-server-{}", via, kind), format!("request #{} ({}) issued after the proxy server was (re)started failed: done={:?} {:?} reply {:?}", i, via, rr.done_us.map(|d| (d - rr.start_us) / 1000), rr.text, String::from_utf8_lossy(&rr.reply).chars().take(30).collect::<String>()));
+        }
+    }
+    out.nontrivial = true;
+    out.summary = json!({"mode": "down", "kind": kind, "requests_while_down": down_specs.len(), "requests_after": after_specs.len(), "recover": recover});
     out
 }
 
